@@ -189,6 +189,12 @@ class LockStep:
             self.pending[origin] = dict(exp=[], kind="rejected", concerned=set(), t=tok["t"], burst=None, sleeping=tok["sleeping"])
             return
         n, c, t, a, s, p = msg.node_id, msg.child_id, msg.type, msg.ack, msg.sub_type, msg.payload
+        if spec.header_ok(version, n, c, t, a, s) is False:
+            # the library accepted a line whose HEADER the serial API rules out for this version (id ranges, child-255
+            # rules, ack, defined command / sub-type - the clauses C03 enumerates): it must still have no effect
+            after = snapshot(gw)
+            if after != tok["before"] or reply is not None or len(gw.tasks.queue) != tok["qlen"] or cbs:
+                out.v("C01", f"invalid-header-line-effect:t={t}", f"line {data!r} is not valid for {version} (header) but was accepted and had an effect", origin)
         r = mdl.step(n, c, t, a, s, p)
         out.kinds.append(r["kind"])
         out.kind_states.append((r["kind"], tok["sc"], t, s))
